@@ -158,6 +158,13 @@ def sim_scenario(args):
     cfg["anyorder"] = False
     if rng.random() < 0.4:
         cfg["nat"] = rng.choice(["A", "B"])      # peer-reflexive local candidates and discovered pairs
+    tcp = rng.random() < 0.25
+    if tcp:
+        # ICE-TCP only (real loopback TCP): the active side connects from an ephemeral port, so TCP peer-reflexive
+        # candidates appear on both sides; half of these sessions use reliable agents (the halving rule flips)
+        cfg.pop("nat", None)
+        cfg.update(newargs=" icetcp=1 iceudp=0", loss=0, dup=0, lat=rng.choice([1, 5]), extra_opts=rng.choice([0, 2]))
+    reliable = bool(cfg.get("extra_opts", 0) & 2)
     s = None
     bad = []
     nlists = 0
@@ -169,6 +176,8 @@ def sim_scenario(args):
         last_role = {}
         for st in steps + ["run 40", "run 100", "run 400", "run 1000", "runidle 20000"]:
             s.op(st)
+            if tcp:
+                s.op("settle 40")
             if rng.random() < 0.5:
                 s.op(f"run {rng.choice([0, 1, 20, 100])}")
             for ag in "AB":
@@ -191,7 +200,22 @@ def sim_scenario(args):
                 nlists += 1 if prios else 0
             if bad:
                 break
-        return dict(seed=seed, bad=bad[:3], script=s.script, nlists=nlists, switches=switches, cfg=cfg)
+        # every candidate either agent announced: the type-preference byte is the RFC rank of its type for its transport
+        # (host 120 > peer-reflexive 110 > server-reflexive 100; halved for TCP on unreliable and for UDP on reliable agents)
+        import re
+        ncand = 0
+        for e in s.events():
+            m = re.match(r"t=\d+ (\w+) (new-candidate|new-remote-candidate) \d+ type=(\d) tr=(\d) comp=\d+ prio=(\d+) addr=(\S+)", e)
+            if not m or TYPE_PREF.get(int(m.group(3))) is None:
+                continue
+            ty, tr, prio = int(m.group(3)), int(m.group(4)), int(m.group(5))
+            exp = TYPE_PREF[ty] // 2 if (reliable and tr == 0) or (not reliable and tr != 0) else TYPE_PREF[ty]
+            ncand += 1
+            if prio >> 24 != exp:
+                bad.append(f"agent {m.group(1)} {m.group(2)} {m.group(6)}: type {ty} transport {tr} ({'reliable' if reliable else 'unreliable'} agent) "
+                           f"has type preference {prio >> 24}, the rank of its type is {exp} (priority {prio})")
+                break
+        return dict(seed=seed, bad=bad[:3], script=s.script, nlists=nlists, switches=switches, cfg=cfg, ncand=ncand, tcp=tcp)
     except simlib.SimDied as e:
         return dict(seed=seed, bad=["crash: " + str(e)[-800:]], script=s.script if s else [], nlists=nlists, switches=switches, cfg=cfg)
     finally:
